@@ -21,6 +21,8 @@ from vf import core
 TYPES = ("http", "ws", "tcp", "udp", "dns")
 FILTER_EXPR = {"none": None, "http": "~http", "tcp": "~tcp", "udp": "~udp", "dns": "~dns", "websocket": "~websocket",
                "resp": "~s", "noresp": "~q", "err": "~e", "marked": "~marked", "unmarked": "!~marked"}
+# VERIF_C39_ROTATE_FIXED=1 selects the model variant of the repair proposed in findings_proposed/C39.md
+OPEN_FIRST = os.environ.get("VERIF_C39_ROTATE_FIXED", "") == "1"
 FOREIGN = b"15:2:id;7:foreign;}"  # a tnetstring dict {"id": "foreign"}: what is in every file before the scenario
 
 
@@ -154,6 +156,10 @@ class Runner:
                 self.sa.stream.fo.close()
         except Exception:
             pass
+        try:  # Master.__init__ installs a logging handler bound to its event loop; drop it with the context
+            self.tctx.master._legacy_log_events.uninstall()
+        except Exception:
+            pass
         self.tctx.__exit__(None, None, None)
         shutil.rmtree(self.dir, ignore_errors=True)
 
@@ -202,6 +208,15 @@ class Runner:
             self.file_set = True
             new, trunc = self.delta()
             self.trace.append({"k": "setfile", "path": p, "append": bool(app), "new": new, "trunc": trunc})
+        elif kind == "setfile_bad":
+            from mitmproxy import exceptions
+
+            try:  # a directory cannot be opened as a file: the option manager must refuse and roll back
+                self.tctx.configure(self.sa, save_stream_file=self.dir)
+            except exceptions.OptionsError:
+                pass
+            new, trunc = self.delta()
+            self.trace.append({"k": "setfile_failed", "new": new, "trunc": trunc})
         elif kind == "setfilter":
             self.tctx.configure(self.sa, save_stream_filter=FILTER_EXPR[op[1]])
             self.flt = op[1]
@@ -297,19 +312,24 @@ def run_scenario(sc, scratch):
 
 
 QUICK_MODELS = [
-    {"FlowTypes": ("http", "ws"), "Marked": frozenset({1}), "Paths": frozenset({1}), "Filters": frozenset({"none", "resp"}), "MaxCfg": 3},
-    {"FlowTypes": ("tcp", "dns"), "Marked": frozenset({2}), "Paths": frozenset({1}), "Filters": frozenset({"none", "err", "noresp"}), "MaxCfg": 3},
+    {"FlowTypes": ("http", "ws"), "Marked": frozenset({1}), "Paths": frozenset({1}), "Filters": frozenset({"none", "resp"}), "MaxCfg": 3, "BadPaths": False, "OpenFirst": OPEN_FIRST},
+    {"FlowTypes": ("tcp", "dns"), "Marked": frozenset({2}), "Paths": frozenset({1}), "Filters": frozenset({"none", "err", "noresp"}), "MaxCfg": 3, "BadPaths": False, "OpenFirst": OPEN_FIRST},
 ]
+# the environment may also try an unopenable path (SetFileBad); kept apart because of findings_proposed/C39.md
+BAD_QUICK = {"FlowTypes": ("http",), "Marked": frozenset(), "Paths": frozenset({1, 2}), "Filters": frozenset({"none", "err"}),
+             "MaxCfg": 3, "BadPaths": True, "OpenFirst": OPEN_FIRST}
+BAD_THOROUGH = {"FlowTypes": ("http", "dns"), "Marked": frozenset({1}), "Paths": frozenset({1, 2}),
+                "Filters": frozenset({"none", "resp"}), "MaxCfg": 4, "BadPaths": True, "OpenFirst": OPEN_FIRST}
 THOROUGH_MODELS = [
     {"FlowTypes": ("http", "ws"), "Marked": frozenset({1}), "Paths": frozenset({1, 2}),
-     "Filters": frozenset({"none", "resp", "websocket", "marked"}), "MaxCfg": 3},
+     "Filters": frozenset({"none", "resp", "websocket", "marked"}), "MaxCfg": 3, "BadPaths": False, "OpenFirst": OPEN_FIRST},
     {"FlowTypes": ("udp", "dns"), "Marked": frozenset({2}), "Paths": frozenset({1, 2}),
-     "Filters": frozenset({"none", "err", "noresp", "dns"}), "MaxCfg": 3},
+     "Filters": frozenset({"none", "err", "noresp", "dns"}), "MaxCfg": 3, "BadPaths": False, "OpenFirst": OPEN_FIRST},
     {"FlowTypes": ("http", "tcp", "dns"), "Marked": frozenset({3}), "Paths": frozenset({1}),
-     "Filters": frozenset({"none", "http", "unmarked"}), "MaxCfg": 3},
+     "Filters": frozenset({"none", "http", "unmarked"}), "MaxCfg": 3, "BadPaths": False, "OpenFirst": OPEN_FIRST},
 ]
 THOROUGH_BIG = {"FlowTypes": ("http", "ws", "tcp"), "Marked": frozenset({1}), "Paths": frozenset({1, 2}),
-                "Filters": frozenset({"none", "resp", "err", "http"}), "MaxCfg": 4}
+                "Filters": frozenset({"none", "resp", "err", "http"}), "MaxCfg": 4, "BadPaths": False, "OpenFirst": OPEN_FIRST}
 
 
 class Check(core.PropertyCheck):
@@ -324,7 +344,8 @@ class Check(core.PropertyCheck):
         "completion_match", "completion_nomatch", "completion_of_flow_not_started_while_saving", "second_completion",
         "ws_not_a_completion", "stop_unset", "stop_done", "stop_pending_match", "stop_pending_nomatch",
         "stop_several_pending", "stop_with_completed", "rotate", "rotate_while_pending", "start_append",
-        "start_overwrite", "second_session", "filter_change", "filter_change_while_pending", "completion_after_stop_write")
+        "start_overwrite", "second_session", "filter_change", "filter_change_while_pending", "completion_after_stop_write",
+        "refused_option_change", "refused_option_change_while_saving")
     REQUIRED_ACTIONS = ("SetFile", "SetFilter", "Unset", "Done", "StartHook")  # per-type hooks: see the witnesses
     ASSUMPTIONS = (
         "records on disk are read with the harness's own tnetstring reader and identified by their 'id' entry; `new` "
@@ -347,7 +368,7 @@ class Check(core.PropertyCheck):
         return QUICK_MODELS[0] if tier == "quick" else THOROUGH_MODELS[0]
 
     def model_runs(self, ctx):
-        cfgs = QUICK_MODELS if ctx.quick else THOROUGH_MODELS
+        cfgs = (QUICK_MODELS + [BAD_QUICK]) if ctx.quick else (THOROUGH_MODELS + [BAD_THOROUGH])
         runs = [ctx.model_check(self.MODEL, c, dump=True, view="View", tag=f"_{i}") for i, c in enumerate(cfgs)]
         if not ctx.quick:
             runs.append(ctx.model_check(self.MODEL, THOROUGH_BIG, dump=False, view="View", tag="_big"))
@@ -361,6 +382,8 @@ class Check(core.PropertyCheck):
         for name, args, _st in beh[1:]:
             if name == "SetFile":
                 ops.append(["setfile", args[0], bool(args[1])])
+            elif name == "SetFileBad":
+                ops.append(["setfile_bad"])
             elif name == "SetFilter":
                 ops.append(["setfilter", args[0]])
             elif name == "Unset":
@@ -378,7 +401,10 @@ class Check(core.PropertyCheck):
                 continue
             c = m.constants
             behs = m.graph.edge_cover(rng, max_len=24, tail=5)
-            behs += m.graph.random_walks(rng, 300 if ctx.quick else 3000, 20)
+            cap = 900 if ctx.quick else 6000  # a seeded sample of the edge cover when it is larger than that
+            if len(behs) > cap:
+                behs = rng.sample(behs, cap)
+            behs += m.graph.random_walks(rng, 200 if ctx.quick else 3000, 20)
             for b in behs:
                 if len(b) < 2:
                     continue
@@ -395,7 +421,7 @@ class Check(core.PropertyCheck):
                                     predicted=core.predicted_events(b), source="simulate")
         # beyond the model's bounds: more flows of every type, replays of completed flows, several sessions,
         # both paths, the whole filter vocabulary
-        for _ in range(400 if ctx.quick else 5000):
+        for _ in range(300 if ctx.quick else 5000):
             yield core.Scenario(self._random(rng), source="random")
 
     @staticmethod
@@ -407,6 +433,7 @@ class Check(core.PropertyCheck):
         ops = []
         saving = False
         flts = list(FILTER_EXPR)
+        bad = rng.random() < 0.15  # a few scenarios also try an unopenable path
         for _ in range(rng.randint(10, 45)):
             c = rng.random()
             if c < 0.10:
@@ -414,6 +441,8 @@ class Check(core.PropertyCheck):
                 saving = True
             elif c < 0.18:
                 ops.append(["setfilter", rng.choice(flts)])
+            elif c < 0.19 and bad:
+                ops.append(["setfile_bad"])
             elif c < 0.25 and saving:
                 ops.append(["unset"])
                 saving = False
